@@ -41,6 +41,7 @@ pub fn exec(func: &str, a: &mut Args) -> String {
     if func.starts_with("lane3_") || func.starts_with("nl3_") || func.starts_with("dv3_") || func.starts_with("tv3_") { return lanes3::exec(func, a); }
     if func.starts_with("lane2_") || func.starts_with("nl2_") || func.starts_with("dv2_") || func.starts_with("tv2_") { return lanes2::exec(func, a); }
     if func.starts_with("hf2_") { return hf2::exec(func, a); }
+    if func.starts_with("hf3_") { return hf3::exec(func, a); }
     match func {
         "bf_point" => {
             let (q, cur, _) = c08::replay_cur(a, false);
@@ -83,6 +84,7 @@ pub fn gen(r: &mut Rng, thorough: bool) -> Vec<(String, String)> {
     v.extend(hf2::gen(r, thorough));
     v.extend(lanes3::gen_tv(r, thorough));
     v.extend(lanes2::gen_tv(r, thorough));
+    v.extend(hf3::gen(r, thorough));
     v
 }
 
@@ -1651,6 +1653,77 @@ pub mod hf2 {
             let g2 = super::comp2::dynsh(&sh);
             let ab = g2.compute_aabb(&pos12).loosened(td);
             v.push(("hf2_walk".into(), format!("{} {} {} {} {} {} {} {} {}", s, d2::hp(&ab.mins), d2::hp(&ab.maxs), d2::hv(&vel), hx(mt), hx(td), sp as u8, d2::hiso(&pos12), super::comp2::hsh(&sh))));
+        }
+        v
+    }
+}
+
+/// the grid lookups of the 3-D heightfield (`hf3_*`): the real `HeightField::{cell_at_point,
+/// unclamped_elements_range_in_local_aabb, map_elements_in_local_aabb}`; wire format:
+/// `nr nc h[nr*nc] (column-major) st[(nr-1)*(nc-1)] (column-major flag bits) scale.x scale.y scale.z`
+pub mod hf3 {
+    use crate::util::*;
+    use crate::p3::bounding_volume::Aabb;
+    use crate::p3::na::DMatrix;
+    use crate::p3::shape::{HeightField, HeightFieldCellStatus};
+    use d3::{Point, Vector};
+
+    pub struct H { pub nr: usize, pub nc: usize, pub hs: Vec<f64>, pub st: Vec<u8>, pub sc: Vector<f64> }
+    pub fn h(a: &mut Args) -> H { let nr = a.u(); let nc = a.u(); let hs = (0..nr * nc).map(|_| a.f()).collect(); let st = (0..(nr - 1) * (nc - 1)).map(|_| a.u() as u8).collect(); H { nr, nc, hs, st, sc: d3::v(a) } }
+    pub fn hh(x: &H) -> String { format!("{} {} {} {} {}", x.nr, x.nc, hxs(x.hs.iter()), x.st.iter().map(|s| s.to_string()).collect::<Vec<_>>().join(" "), d3::hv(&x.sc)) }
+    pub fn build(x: &H) -> HeightField {
+        let mut f = HeightField::new(DMatrix::from_column_slice(x.nr, x.nc, &x.hs), x.sc);
+        for j in 0..x.nc - 1 { for i in 0..x.nr - 1 { f.set_cell_status(i, j, HeightFieldCellStatus::from_bits_truncate(x.st[i + j * (x.nr - 1)])); } }
+        f
+    }
+    pub fn exec(func: &str, a: &mut Args) -> String {
+        match func {
+            "hf3_cell" => { let x = h(a); let f = build(&x); let p = d3::p(a);
+                match f.cell_at_point(&p) { None => "none".into(), Some((i, j)) => format!("some {} {}", i, j) } }
+            "hf3_range" => { let x = h(a); let f = build(&x); let b = Aabb::new(d3::p(a), d3::p(a));
+                let (ri, rj) = f.unclamped_elements_range_in_local_aabb(&b); format!("{} {} {} {}", ri.start, ri.end, rj.start, rj.end) }
+            "hf3_elems" => { let x = h(a); let f = build(&x); let b = Aabb::new(d3::p(a), d3::p(a));
+                let mut ids = Vec::new(); f.map_elements_in_local_aabb(&b, &mut |i, _| ids.push(i.to_string()));
+                format!("ids {}", ids.join(" ")).trim_end().to_string() }
+            _ => "nofn".into(),
+        }
+    }
+    pub fn gen_h(r: &mut Rng, lat: bool) -> H {
+        let nr = *r.pick(&[2usize, 2, 3, 4, 5, 6, 9]); let nc = *r.pick(&[2usize, 3, 3, 4, 5, 7, 10]);
+        let hs: Vec<f64> = (0..nr * nc).map(|_| if lat { *r.pick(&[0.0, 0.25, 0.5, 1.0, -0.5, 2.0]) } else { r.uniform(-2.0, 2.0) }).collect();
+        let st = (0..(nr - 1) * (nc - 1)).map(|_| *r.pick(&[0u8, 0, 0, 1, 1, 2, 4, 6, 3, 5])).collect();
+        let sc = if lat { Vector::new(*r.pick(&[1.0, 2.0, 4.0, 0.5, 3.0, 10.0, 7.0]), *r.pick(&[1.0, 2.0, 0.5]), *r.pick(&[1.0, 2.0, 4.0, 6.0, 0.25])) }
+                 else { Vector::new(r.uniform(0.05, 50.0), r.uniform(0.05, 5.0), r.uniform(0.05, 50.0)) };
+        H { nr, nc, hs, st, sc }
+    }
+    /// an abscissa on / beside a grid line of an axis with `n` cells and scale `s`, on the border, outside, anywhere
+    fn gen_c(r: &mut Rng, n: usize, s: f64) -> f64 {
+        let i = r.below(n as u64 + 1) as f64;
+        let w = 1.0 / ((n + 1) as f64 - 1.0);
+        let vx = (-0.5 + w * i) * s;
+        match r.below(8) {
+            0 => vx, 1 => s * (-0.5 + i / n as f64), 2 => if vx == 0.0 { 1.0e-300 } else { f64::from_bits(vx.to_bits() + 1) }, 3 => if vx == 0.0 { -1.0e-300 } else { f64::from_bits(vx.to_bits() - 1) },
+            4 => vx + *r.pick(&[0.25, -0.25, 0.001]) * w * s,
+            5 => *r.pick(&[-0.5, 0.5, -0.75, 0.75, -10.0, 10.0]) * s,
+            6 => r.uniform(-0.7, 0.7) * s,
+            _ => vx + 0.5 * w * s,
+        }
+    }
+    pub fn gen(r: &mut Rng, thorough: bool) -> Vec<(String, String)> {
+        let mut v = Vec::new();
+        let n = if thorough { 4000 } else { 500 };
+        for it in 0..n {
+            let lat = it % 2 == 0;
+            let x = gen_h(r, lat); let s = hh(&x);
+            let p = Point::new(gen_c(r, x.nc - 1, x.sc.x), *r.pick(&[0.0, 1.0]), gen_c(r, x.nr - 1, x.sc.z));
+            v.push(("hf3_cell".into(), format!("{} {}", s, d3::hp(&p))));
+            let (mut x0, mut x1) = (gen_c(r, x.nc - 1, x.sc.x), gen_c(r, x.nc - 1, x.sc.x)); if r.below(8) == 0 { x1 = x0; } if x0 > x1 { std::mem::swap(&mut x0, &mut x1); }
+            let (mut z0, mut z1) = (gen_c(r, x.nr - 1, x.sc.z), gen_c(r, x.nr - 1, x.sc.z)); if r.below(8) == 0 { z1 = z0; } if z0 > z1 { std::mem::swap(&mut z0, &mut z1); }
+            let hy = x.hs[r.below(x.hs.len() as u64) as usize] * x.sc.y;
+            let (y0, y1) = match r.below(5) { 0 => (hy, hy + 1.0), 1 => (hy - 1.0, hy), 2 => (-100.0, 100.0), 3 => (hy + 0.25, hy + 0.5), _ => { let a = r.uniform(-3.0, 3.0); (a, a + r.uniform(0.0, 2.0)) } };
+            let b = format!("{} {} {} {} {} {}", hx(x0), hx(y0), hx(z0), hx(x1), hx(y1), hx(z1));
+            v.push(("hf3_range".into(), format!("{} {}", s, b)));
+            v.push(("hf3_elems".into(), format!("{} {}", s, b)));
         }
         v
     }
